@@ -15,7 +15,7 @@ ROLES_PLAIN = [':ARG0', ':ARG1', ':ARG2', ':op1', ':op2', ':op10', ':mod', ':dom
                ':consist-of', ':prep-on-behalf-of', ':superset', ':subset', ':poss', ':beneficiary', ':name',
                ':foo', ':R', ':', ':snt3', ':wiki', ':time', ':location', ':ARG10', ':role', ':employed-by', ':TOP',
                ':instance']
-CONSTS = ['-', '+', '7', '0', '0.0', '-1.5e3', '"a b"', '"x:y(z)"', '"\\"q\\""', 'imperative', 'x~y', '"t~1"',
+CONSTS = ['-', '+', '7', '0', '0.0', '-1.5e3', '"a b"', '"x:y(z)"', '"\\"q\\""', '"C:\\\\"', '"e\\\\\\"f"', 'imperative', 'x~y', '"t~1"',
           '"#h"', 'a/b', 'Ω', '"é "', '""', '1e400', 'true', 'null', 'NaN']
 ALNS = ['~1', '~e.2', '~e.1,2', '~E.3', '~x4', '~01', '~2,03']
 BLANKS = [' ', '  ', '\t', '\n', '\n  ', ' \n', '\r\n', '\r', '\x0b', '\x0c']
@@ -238,7 +238,7 @@ def gen_penman_string(rng, wf=True):
     return s
 
 
-TOKENS = ['(', ')', '/', ':ARG0', ':', ':r-of', 'a', 'b', 'a,b', ',', '^', '"s t"', '"', '~1', '~e.1', '~e.', '~', '#c',
+TOKENS = ['(', ')', '/', ':ARG0', ':', ':r-of', 'a', 'b', 'a,b', ',', '^', '"s t"', '"', '"a\\"', '"b\\\\"', '\\"', '"c\\\\\\"', '~1', '~e.1', '~e.', '~', '#c',
           '# ::k v', '\\', '.', '-', '1', 'B', 'x~1', ':r~e.1', '^r', ',b', 'a,']
 
 
